@@ -375,6 +375,21 @@ def header_writer_rule(prog, res, rule='header-write', int_scale_ok=False):
                     cn = d.get('copy_n')
                     if d.get('src_from') is None or cn is None or not (set(cn.keys()) <= {()} and cn.get((), 0) <= fld['bytes']):
                         bad = 'label cell is not filled from the label string with a bounded copy'
+                    else:
+                        # string::copy writes min(n, size) characters: the cell must be cleared for every label,
+                        # i.e. the zero-initialised array is declared inside the loop that writes it
+                        fn_ = d['fn']
+                        wn = d['node']
+                        decl_stmt = None
+                        for x in fn_.all_nodes({'DeclStmt'}):
+                            for dd_ in x['decls']:
+                                if 'local:' + dd_['name'] == d.get('src'):
+                                    decl_stmt = x
+                        loops_w = [a_ for a_ in fn_.ancestors(wn) if fn_.nodes[a_]['k'] in ('ForStmt', 'CXXForRangeStmt', 'WhileStmt', 'DoStmt')]
+                        if decl_stmt is not None and loops_w and decl_stmt['id'] not in fn_.descendants(loops_w[0]):
+                            refill = [c_ for c_ in fn_.calls() if c_['callee']['name'] in ('memset', 'fill', 'fill_n') and c_['id'] in fn_.descendants(loops_w[0])]
+                            if not refill:
+                                bad = 'the label cell `%s` is declared (and zeroed) once, outside the loop that fills and writes it: a label shorter than the previous one keeps the tail of the previous label' % d.get('src')
                 elif d.get('srck') == 'string':
                     bad = None   # width == size is judged by the definedness rule (C13/C14)
             if bad:
@@ -2795,3 +2810,127 @@ def overstrict_guard_rule(prog, res, rule='capacity-guard'):
 def reader_unsigned_for(prog, f, d):
     """the slot written by item d is a next-record offset / count that the readers decode unsigned"""
     return True
+
+
+def toupper_rule(prog, res, rule='upper-case'):
+    """names are stored upper-case: ezc3d::toUpper must map every lower-case ASCII letter a..z.  Known
+    forms: std::transform / a loop applying ::toupper (or std::toupper) to each character -> ok; a
+    hand-written range test: its bounds must include 'a' (0x61) and 'z' (0x7A) -> ok / violation; anything
+    else UNDECIDED."""
+    f = prog.fn('ezc3d::toUpper', nparams=1)
+    R = Renderer(f)
+    uses_lib = any((n['k'] in ('DeclRefExpr',) and n['decl'].get('name') == 'toupper') or
+                   (n['k'] == 'CallExpr' and n.get('callee', {}).get('name') == 'toupper') for n in f.nodes)
+    inst = 'toUpper maps every letter a..z'
+    if uses_lib:
+        res.ok(rule, inst, f.loc(), 'every character goes through ::toupper', function=f.sig, expr='toupper')
+        return
+    lo = hi = None
+    for n in f.all_nodes({'BinaryOperator'}):
+        if n['op'] not in ('<', '<=', '>', '>='):
+            continue
+        l, r = f.nodes[f.strip(n['ch'][0], 'all')], f.nodes[f.strip(n['ch'][1], 'all')]
+        cl, cr = l.get('cv'), r.get('cv')
+        if (cl is None) == (cr is None):
+            continue
+        op = n['op']
+        if cl is not None:     # K op x  ->  x op' K
+            op = {'<': '>', '<=': '>=', '>': '<', '>=': '<='}[op]
+            k = int(cl)
+        else:
+            k = int(cr)
+        if op == '>':
+            lo = k + 1
+        elif op == '>=':
+            lo = k
+        elif op == '<':
+            hi = k - 1
+        elif op == '<=':
+            hi = k
+    if lo is not None and hi is not None:
+        if lo <= 0x61 and hi >= 0x7A and lo > 0x5A:
+            res.ok(rule, inst, f.loc(), 'range test covers 0x%02X..0x%02X' % (lo, hi), function=f.sig, expr='toupper')
+        elif lo > 0x61 or hi < 0x7A:
+            res.viol(rule, inst, f.loc(), 'the hand-written range test converts the characters 0x%02X..0x%02X only: %s not upper-cased, so names containing it are stored as given' %
+                     (lo, hi, ' and '.join(x for x in (("'a'" if lo > 0x61 else ''), ("'z'" if hi < 0x7A else '')) if x) + ' is'), function=f.sig, expr='toupper')
+        else:
+            res.undecided(rule, inst, f.loc(), 'range test 0x%02X..0x%02X also touches characters that are not lower-case letters [shape not read by the rule]' % (lo, hi), function=f.sig, expr='toupper')
+    else:
+        res.undecided(rule, inst, f.loc(), 'the case mapping is neither ::toupper nor a range test the rule reads [shape not read by the rule]', function=f.sig, expr='toupper')
+
+
+def passthrough_index_rule(prog, res, rule='index-pass-through'):
+    """c3d::frame(frame, idx) hands its index to Data::frame unchanged: append / replace / extend are decided
+    there, from the real number of stored frames"""
+    f = prog.fn('ezc3d::c3d::frame', nparams=2)
+    R = Renderer(f)
+    calls = [n for n in f.calls() if n['callee']['qname'] == 'ezc3d::DataNS::Data::frame' and len(f.call_args(n)) == 2]
+    if len(calls) != 1:
+        res.undecided(rule, 'c3d::frame -> Data::frame', f.loc(), 'expected one call of Data::frame(frame, idx), found %d [shape not read by the rule]' % len(calls), function=f.sig, expr='passthrough')
+        return
+    a = f.call_args(calls[0])
+    r0, r1 = R.render(a[0]), R.render(a[1])
+    import loops
+    modified = loops.loop_var_modified_in(f, f.params[1]['id'], [n['id'] for n in f.nodes])
+    if r0 == 'arg0' and r1 == 'arg1' and not modified:
+        res.ok(rule, 'c3d::frame -> Data::frame', f.loc(calls[0]['id']), 'frame and index handed over unchanged', function=f.sig, expr='passthrough')
+    elif modified or r1 != 'arg1':
+        res.viol(rule, 'c3d::frame -> Data::frame', f.loc(calls[0]['id']), 'the index handed to Data::frame is %s%s: which frame is appended / replaced no longer follows from the caller\'s index and the number of stored frames' %
+                 (r1, ' (the parameter is reassigned before the call)' if modified else ''), function=f.sig, expr='passthrough')
+    else:
+        res.viol(rule, 'c3d::frame -> Data::frame', f.loc(calls[0]['id']), 'the frame handed to Data::frame is %s, not the caller\'s frame' % r0, function=f.sig, expr='passthrough')
+
+
+def reader_refusals_rule(prog, res, rule='accepts-format-range'):
+    """a record reader may refuse a value it has just read only outside the range the format gives
+    for that field: a guard `if (x CMP K) throw` on the local that received the field must let every
+    value of the specified range through"""
+    spec = load_spec()
+    n = 0
+    for q, layout in (('ezc3d::ParametersNS::GroupNS::Parameter::read', 'parameter_record'), ('ezc3d::ParametersNS::GroupNS::Group::read', 'group_record')):
+        f = prog.fn(q, nparams=2)
+        R = Renderer(f)
+        seq = codec.Extractor(prog, 'r').seq_of(f)
+        dests = {}
+        order = [e for e in spec[layout] if e.get('bytes') in (1, 2) and e.get('type') in ('u', 's') and e['name'] not in ('name_len', 'id', 'next', 'type')]
+
+        def walk_items(items):
+            for it in items:
+                if it[0] == 'io' and it[1].get('k') in codec.READERS:
+                    yield it[1]
+                elif it[0] == 'loop':
+                    yield from walk_items(it[3])
+                elif it[0] == 'alt':
+                    yield from walk_items(it[2])
+                    yield from walk_items(it[3])
+                elif it[0] == 'call' and not it[1].qname.endswith(('::readParam', '::_readMatrix')):
+                    yield from walk_items(it[3])
+        reads = [d for d in walk_items(seq) if (d.get('dest') or '').startswith('local:') and pshow(d.get('width')) == '1' and d.get('k') == 'readUint']
+        # unsigned one-byte reads into locals, in order: ndims, [dims...], desc_len
+        names = {}
+        if reads:
+            names[reads[0]['dest']] = next((e for e in spec[layout] if e['name'] == 'ndims'), None) if layout == 'parameter_record' else next((e for e in spec[layout] if e['name'] == 'desc_len'), None)
+            if layout == 'parameter_record' and len(reads) > 1:
+                names[reads[-1]['dest']] = next((e for e in spec[layout] if e['name'] == 'desc_len'), None)
+        for dest, fld in names.items():
+            if not fld or 'range' not in fld:
+                continue
+            lo, hi = fld['range']
+            for i in f.all_nodes({'IfStmt'}):
+                if not any(f.nodes[x]['k'] == 'CXXThrowExpr' for x in f.descendants(i['then'])):
+                    continue
+                import indexsites as _IS
+                at = []
+                _IS.atoms_of_cond(f, R, i['cond'], True, at)
+                for l, op, r_, _ in at:
+                    if l == dest and re.match(r'^-?\d+$', r_):
+                        k = int(r_)
+                        n += 1
+                        refused = [v for v in range(lo, hi + 1) if {'>': v > k, '>=': v >= k, '<': v < k, '<=': v <= k, '==': v == k, '!=': v != k}[op]]
+                        inst = '%s: %s refused only outside %d..%d' % (f.qname.split('::')[-2] + '::read', fld['name'], lo, hi)
+                        if refused and len(at) == 1:
+                            res.viol(rule, inst, f.loc(i['id']), 'the reader throws when %s %s %d: the format allows %s = %s (%s)' % (fld['name'], op, k, fld['name'], refused[-1] if op in ('>', '>=') else refused[0], fld['cite']),
+                                     function=f.sig, expr='refuse:' + fld['name'])
+                        elif not refused:
+                            res.ok(rule, inst, f.loc(i['id']), 'guard %s %s %d excludes no specified value' % (fld['name'], op, k), function=f.sig, expr='refuse:%s@%d' % (fld['name'], i['id']), nontrivial=False)
+    res.ok(rule, 'reader refusals screened against the format ranges', 'src/', '%d guard(s) on fields with a specified range' % n, function='', expr='screen', nontrivial=False)
